@@ -208,6 +208,8 @@ pub struct Ctx {
     pub jitter_us: AtomicU64,
     pub log_exec: AtomicBool,
     pub setup_log: AtomicBool,
+    /// a system of `panic_set` panics only the first time it runs
+    pub panic_once: AtomicBool,
 }
 
 impl Ctx {
@@ -223,6 +225,7 @@ impl Ctx {
             jitter_us: AtomicU64::new(0),
             log_exec: AtomicBool::new(true),
             setup_log: AtomicBool::new(true),
+            panic_once: AtomicBool::new(false),
         })
     }
     pub fn cell(&self, r: Res) -> Cell {
@@ -379,7 +382,15 @@ impl<'a, Mk> System<'a> for HSysT<Mk> {
             ctx.ev(json!({"ev":"fetch","s":self.gid,"th":ctx.thread()}));
         }
         ctx.gate(self.gid);
-        if ctx.panic_set.lock().unwrap().contains(&self.gid) {
+        let must_panic = {
+            let mut ps = ctx.panic_set.lock().unwrap();
+            let hit = ps.contains(&self.gid);
+            if hit && ctx.panic_once.load(Ordering::Relaxed) {
+                ps.remove(&self.gid);
+            }
+            hit
+        };
+        if must_panic {
             if logx {
                 ctx.ev(json!({"ev":"panic","s":self.gid}));
             }
